@@ -12,7 +12,6 @@
 """
 from __future__ import annotations
 
-import copy
 
 from .. import core
 from ..tablewalk import index_vs_scan, table_snapshot
@@ -24,8 +23,30 @@ _RAISED = object()
 # ------------------------------------------------------------------------------------------------------------------
 # helpers
 # ------------------------------------------------------------------------------------------------------------------
+def _snap(table):
+    """identity-level snapshot of one table (linear time): stored objects, every index list (as multiset), number of back references of every
+    stored object (their content is compared with the index lists by the walker that follows every catalogue run)."""
+    ids = frozenset(map(id, table._objects))
+    return (ids,
+            tuple((name, tuple((k, tuple(sorted(map(id, lst)))) for k, lst in dict.items(idx))) for name, idx in table._idx_defs.items()),
+            tuple((oid, len(refs)) for oid, refs in table._object_ids.items() if refs or oid in ids))
+
+
 def snap3(mdib):
-    return tuple(table_snapshot(getattr(mdib, t)) for t in TABLES)
+    return tuple(_snap(getattr(mdib, t)) for t in TABLES)
+
+
+def stop_in_background(*stoppables):
+    """World.stop() / SdcConsumer.stop_all() mostly wait for library threads that wake up once per second: nothing the monitors need."""
+    import threading
+
+    def run():
+        for fn in stoppables:
+            try:
+                fn()
+            except Exception:  # noqa: BLE001
+                pass
+    threading.Thread(target=run, daemon=True, name='c11-stop').start()
 
 
 def walk3(ctx, label, mdib, role, detail):
@@ -62,12 +83,14 @@ class Queries:
 
     def q(self, name, fn, oracle=None):
         ctx = self.ctx
+        if not self.ok:
+            return _RAISED  # first finding of this catalogue run is reported, the rest would repeat it under other names
         try:
             res = fn()
         except Exception as ex:  # noqa: BLE001
             res = _RAISED
             self.exc = ex
-            ctx.count(f'mdib.query_raised.{type(ex).__name__}')
+            ctx.count(f'mdib.query_raised.{name.split(".depth_first")[0]}.{type(ex).__name__}')
         now = snap3(self.mdib)
         ctx.count('mdib.queries')
         ctx.count(f'mdib.queries.{self.role}')
@@ -184,9 +207,34 @@ def run_queries(ctx, mdib, role, rng, detail, n_handles=5):
              else None if sorted(e.handle for e in res) == sorted(d.Handle for d in kids) else
              f'entities {sorted(e.handle for e in res)} scan {sorted(d.Handle for d in kids)}')
         if ent not in (None, _RAISED):
+            # an entity is the application's working copy: it changes it (that is what the interface is for) - the tables must not notice
+            undo = []
+            conts = [ent.descriptor] + (list(ent.states.values()) if ent.is_multi_state else [ent.state])
+            for c in conts:
+                for attr in _KEY_ATTRS:
+                    if hasattr(c, attr):
+                        undo.append((c, attr, getattr(c, attr)))
+                        setattr(c, attr, f'c11_private_entity_{attr}')
+                src = getattr(c, 'Source', None)
+                if isinstance(src, list):
+                    src.append('c11_private_entity_src')
+                    undo.append((src, None, None))
+            ctx.count('mdib.entity_mutations')
+            if qs.ok and not walk3(ctx, f'{role}.after_entity_mutation', mdib, role,
+                                   {**detail, 'what': 'key attributes of an entity obtained from entities.by_handle() were changed', 'handle': h}):
+                qs.ok = False
+            for c, attr, val in reversed(undo):
+                if attr is None:
+                    c.pop()
+                else:
+                    setattr(c, attr, val)
+
             def o_update(res, ent=ent, want_c=want_c):
                 if res is _RAISED:
-                    return 'raised'
+                    # not judged here: Entity.update() of a single-state entity calls states.get_one(), which no table offers (reported as a
+                    # defect outside the statement of C11); purity of the attempt is still decided above
+                    ctx.count(f'mdib.entity_update_raised.{type(qs.exc).__name__}')
+                    return None
                 if ent.is_multi_state and sorted(ent.states) != sorted(s.Handle for s in want_c):
                     return f'entity.update(): states {sorted(ent.states)} scan {sorted(s.Handle for s in want_c)}'
                 return None
@@ -236,9 +284,10 @@ def run_queries(ctx, mdib, role, rng, detail, n_handles=5):
     for t in sorted({s.NODETYPE for s in cstates}, key=str)[:2]:
         qs.q('context_states.NODETYPE.get', lambda: ctab.NODETYPE.get(t, []), _expect_list([s for s in cstates if s.NODETYPE == t]))
     complete = all(_has_state(d, states) for d in descrs)
-    qs.q('entities.items', lambda: mdib.entities.items(),
-         lambda res: None if res is _RAISED and not complete else 'raised' if res is _RAISED else
-         None if sorted(k for k, _ in res) == sorted(d.Handle for d in descrs) else 'items() differs from scan')
+    if rng.random() < 0.35:  # deep-copies every entity
+        qs.q('entities.items', lambda: mdib.entities.items(),
+             lambda res: None if res is _RAISED and not complete else 'raised' if res is _RAISED else
+             None if sorted(k for k, _ in res) == sorted(d.Handle for d in descrs) else 'items() differs from scan')
     qs.q('entities.len', lambda: len(mdib.entities), lambda res: None if res == len(descrs) else f'len {res} scan {len(descrs)}')
     reachable = sorted(d.Handle for d in descendants(None))
 
@@ -566,6 +615,14 @@ def own_op(ctx, mdib, name, rng, memo, walk):
     if name in ('subtree_delete_alertsystem', 'subtree_delete_vmd'):
         t = pm.AlertSystemDescriptor if name.endswith('alertsystem') else pm.VmdDescriptor
         pool = sorted(x.Handle for x in mdib.descriptions.objects if x.NODETYPE == t and mdib.descriptions.parent_handle.get(x.Handle))
+        # keep one alert system with >= 2 children alive (the consumer part of the history ends with grouped reports about alert siblings)
+        groups = [x.Handle for x in mdib.descriptions.objects if x.NODETYPE == pm.AlertSystemDescriptor
+                  and len([c for c in mdib.descriptions.objects if c.parent_handle == x.Handle]) >= 2]
+
+        def survivors(victim):
+            gone = {d.Handle for d in mdib.get_all_descriptors_in_subtree(mdib.descriptions.handle.get_one(victim))}
+            return [g for g in groups if g not in gone]
+        pool = [h for h in pool if survivors(h)]
         if len(pool) < (1 if name.endswith('alertsystem') else 2):
             return 'n/a'
         with mdib.descriptor_transaction() as mgr:
@@ -573,6 +630,31 @@ def own_op(ctx, mdib, name, rng, memo, walk):
         ctx.count('mdib.own.subtree_delete')
         return 'ok'
     raise ValueError(name)
+
+
+def template_reuse_directed(ctx, rng, mdib_file):
+    """API-only sequences on a stand-alone ProviderMdib: the application re-uses the container of one transaction (with a new handle) in the
+    next one.  Every re-use kind runs in its own MDIB, so that one finding does not hide the others."""
+    from sdc11073.mdib import ProviderMdib
+
+    from ..mdibharness import load_mdib_bytes
+    for name in ('reuse_ctx_state', 'reuse_ctx_state', 'reuse_single_state', 'reuse_descriptor', 'reuse_descriptor', 'reuse_entity'):
+        mdib = ProviderMdib.from_string(load_mdib_bytes(mdib_file))
+        memo = {}
+        detail = {'mdib_file': mdib_file, 'op': {'op': name}, 'stand_alone_provider_mdib': True}
+        state = {'ok': True}
+
+        def walk(label, mdib=mdib, detail=detail, state=state):
+            if state['ok']:
+                state['ok'] = walk3(ctx, f'provider.after_{label}', mdib, 'provider', detail)
+        for _ in range(2):
+            try:
+                detail['outcome'] = own_op(ctx, mdib, name, rng, memo, walk)
+            except Exception as ex:  # noqa: BLE001
+                ctx.count(f'mdib.own_op_raised.{name}.{type(ex).__name__}')
+                detail['exception'] = repr(ex)[:300]
+            walk('template_reuse')
+        ctx.count('mdib.template_reuse.directed')
 
 
 # ------------------------------------------------------------------------------------------------------------------
@@ -599,7 +681,11 @@ def consumer_reports(ctx: core.Ctx, arg):
         nsh = world.mdib.data_model.ns_helper
         shapes = []
 
+        w0 = sum(ctx.witness_counts.values())
+
         def feed(case, report_cls, fill, handler_name):
+            if sum(ctx.witness_counts.values()) != w0:
+                return  # the tables are broken: the later cases would repeat the finding under their names
             vg = MdibVersionGroup(cm.mdib_version + 1, cm.sequence_id, cm.instance_id)
             detail = {'mdib_file': mdib_file, 'case': case}
             try:
@@ -697,7 +783,7 @@ def consumer_reports(ctx: core.Ctx, arg):
                  'process_incoming_operational_states_report')
             # waveform states are handed over as a list
             rt = one(lambda s: s.is_realtime_sample_array_metric_state)
-            if rt is not None:
+            if rt is not None and sum(ctx.witness_counts.values()) == w0:
                 vg = MdibVersionGroup(cm.mdib_version + 1, cm.sequence_id, cm.instance_id)
                 try:
                     cm.process_incoming_waveform_states(vg, [st_copy(rt, DescriptorHandle=ghost + '_rt'), st_copy(rt)])
@@ -859,6 +945,8 @@ def consumer_reports(ctx: core.Ctx, arg):
                  'process_incoming_description_modifications')
         # the whole MDIB is thrown away and loaded again
         try:
+            if sum(ctx.witness_counts.values()) != w0:
+                raise RuntimeError('stopped at first witness')
             cm.reload_all()
             ctx.count('consumer.reload_all')
             walk3(ctx, 'consumer.after_reload_all', cm, 'consumer', {'mdib_file': mdib_file})
@@ -868,7 +956,7 @@ def consumer_reports(ctx: core.Ctx, arg):
         ctx.case(('reports', mdib_file, in_getmdib, tuple(shapes)))
         if hno == 0 and arg['i'] == 0:
             ctx.sample({'kind': 'irregular reports handed to ConsumerMdib', 'mdib_file': mdib_file, 'cases': shapes[:12]})
-        world.stop()
+        stop_in_background(world.stop)
 
 
 # ------------------------------------------------------------------------------------------------------------------
@@ -970,7 +1058,11 @@ def mdib_tables(ctx: core.Ctx, arg):
                 elif op == 'add_dup_obj' and members:
                     o = rng.choice(members)
                     trace.append((op + suffix, c11_descr(o)))
-                    getattr(table, 'add_object' + suffix)(o)
+                    try:
+                        getattr(table, 'add_object' + suffix)(o)
+                    except ValueError:
+                        if not getattr(o, 'is_multi_state', False):  # StatesLookup.add_object_no_lock refuses multi states before anything else
+                            raise
                     if table_snapshot(table) != before:
                         ctx.witness(f'{P}.add_stored_object_changes_table', 'adding an object that is already stored changed the table', {'trace': trace[-5:]})
                         ok = False
@@ -1084,9 +1176,16 @@ def mdib_tables(ctx: core.Ctx, arg):
         ctx.case(('mdibtable', flavour, tuple(sorted({t[0] for t in trace}))))
         if seq == 0 and arg['i'] == 0:
             ctx.sample({'kind': 'operation sequence on a real MDIB table class', 'class': flavour, 'ops': trace[:10], 'ok': ok})
-    # MdibBase entry points with duplicates, on a loaded MDIB
-    mdib = src
     detail = {'mdib_file': MDIB_FILES[arg['i'] % len(MDIB_FILES)]}
+    try:
+        _loaded_mdib_entry_points(ctx, rng, src, d_pool, s_pool, detail)
+    except c11.InvariantBroken as ex:
+        ctx.witness('mdibtable.loaded_mdib.lookup_ne_scan', 'lookup != scan at a public method boundary of a table of a loaded MDIB (icontract invariant)',
+                    {**detail, 'problems': str(ex)[:600]})
+
+
+def _loaded_mdib_entry_points(ctx, rng, mdib, d_pool, s_pool, detail):
+    """MdibBase entry points with duplicates, the query catalogue and the clear methods on a loaded MDIB"""
     for round_no in range(3):
         before = snap3(mdib)
         some = rng.sample(d_pool, min(len(d_pool), 3))
@@ -1119,7 +1218,8 @@ def mdib_tables(ctx: core.Ctx, arg):
             ctx.witness('mdibtable.add_containers_duplicate.states', 'MdibBase.add_state_containers with a state whose unique key is stored '
                         'changed the table', detail)
         walk3(ctx, 'provider.after_add_state_containers_duplicate', mdib, 'provider', detail)
-    run_queries(ctx, mdib, 'provider', rng, detail, n_handles=6)
+    if not run_queries(ctx, mdib, 'provider', rng, detail, n_handles=6):
+        return
     mdib.clear_states()
     walk3(ctx, 'provider.after_clear_states', mdib, 'provider', detail)
     mdib.descriptions.clear()
